@@ -28,7 +28,7 @@ CHECKS = {
  "C08": ("stateful property-based testing: invariants (check(), lookup/enodes coherence, slot coverage, find idempotence) after every operation of generated operation sequences over all test languages, in the default and the checks build",
          "no panic and a consistent structure after every single operation of generated sequences (add, add_syn, union, rewrite, match, extract)",
          "well-formed inputs only; explanations+checks configuration not covered (DESIGN 7)"),
- "C09": ("metamorphic + differential: lookup vs add (creates nothing <=> lookup succeeds), variants that are represented by construction (alpha, renaming, replacement by united subterm), renaming equivariance; slots of results against the ground closure",
+ "C09": ("metamorphic + differential: lookup vs add (creates nothing <=> lookup succeeds), variants that are represented by construction (alpha, renaming, replacement by united subterm) or that the ground congruence closure proves equal to an inserted term (mutated copies), renaming equivariance; slots of results against the ground closure",
          "probe terms on reachable e-graphs (mixed histories incl. rewriting)",
          "representedness of variants is by construction; redundancy oracle = ground closure (sound direction for this use)"),
  "C10": ("exhaustive enumeration of generator sets (<=3 generators on 2-4 points) + random sets on 5-6 points against brute-force subgroup closure, directly on the group structure (hook) and through union/eq on multi-slot leaves; redundancy variant judged by the ground closure",
@@ -85,7 +85,7 @@ def main():
                 "engine": "sev",
                 "level_claimed": {"category": "exploration", "text": text, "design_ref": f"DESIGN.md section 3, {pid}"},
                 "level_note": note,
-                "technique": "property-based testing: " + tech,
+                "technique": "property-based testing: " + tech + "; thorough tier additionally coverage-guided fuzzing (libFuzzer) of the same generators and oracle",
             })
         else:
             na.append({"property_id": pid, "reason": NOT_YET.get(pid, "check not built yet (work in progress in this session; the technique applies, see DESIGN.md section 3)")})
@@ -108,8 +108,8 @@ def main():
         "engines": [
             {"name": "sev", "path": "/verif/harness", "serves_properties": sorted(CHECKS.keys()),
              "kind_free_text": "Rust harness: proptest strategies (generation + shrinking) and exhaustive enumerators drive explicit oracles; every case runs in a fresh thread (in a child process after a crash); shrunk failures become JSON replay files"},
-            {"name": "sev-fuzz", "path": "/verif/harness/fuzz", "serves_properties": ["C08", "C16", "C18", "C19"],
-             "kind_free_text": "cargo-fuzz / libFuzzer targets (thorough tier) that decode bytes into the same case types and call the same oracle functions"},
+            {"name": "sev-fuzz", "path": "/verif/harness/fuzz", "serves_properties": sorted(CHECKS.keys()),
+             "kind_free_text": "cargo-fuzz / libFuzzer targets (thorough tier, ASan): fz_stage is generic - the property is selected by SEV_FUZZ_PROP, the input bytes are the random stream of that property's own proptest strategies (pass-through RNG), the decoded case is judged by the same run function and oracle as in the proptest engine; fz_parse (C18, raw text), fz_slotmap (C19), fz_shape (C16), fz_history (C08) are byte-level targets of their own"},
         ],
         "checks": checks,
         "not_applicable": na,
